@@ -511,6 +511,17 @@ pub fn run(ctx: &Ctx) {
         });
     }
 
+    // many elements, little data per element: the honest encoding, its strict prefixes at a few points, one corrupted byte
+    ctx.par_proptest("long-sparse-collections", ctx.tier.pick(1_500, 20_000), || (gen::arb_long_sparse(), any::<u16>(), any::<u8>()), |((s, v), pos, x), l| {
+        let e = ref_encode(s, v).unwrap();
+        l.class("long-sparse-collection");
+        check_decode(s, &e.bytes, true, l)?;
+        let cut = gen::pick_idx(*pos, e.bytes.len());
+        check_decode(s, &e.bytes[..cut], false, l)?;
+        let mut b = e.bytes.clone();
+        b[cut] = *x;
+        check_decode(s, &b, false, l)
+    });
     // (a)-(d) families from random trees
     let n = ctx.tier.pick(30_000, 500_000);
     ctx.par_proptest(
